@@ -6,11 +6,14 @@ Beyond the parser (`parse_body`, `walk`):
    run under `!c` (conds carry (kind, tokens, polarity, originating statement));
  * `truth` / `guards_truth`: three-valued evaluation of a C condition under concrete values of some identifiers
    (`cvflag = -3`), so that a test is recognised by what it decides, not by how it is spelt;
- * `inline_calls`: a bare call `helper(a, b);` of a void function defined in the same file is replaced by its body;
+ * `inline_calls`: a call `helper(a, b);` / `x = helper(a, b);` of a function defined in the same file is replaced by its body
+   under C++ parameter passing (by-value parameters the helper writes are fresh copies, reference / pointer parameters alias);
+ * `const_defs`: named numeric constants of file / class scope (`static const int N = 5;`, `#define N 5`);
  * `copies`: the whole-array copies a statement performs (index loop, memcpy, std::copy, std::copy_n);
  * `Sym`: straight-line symbolic execution (scalars as C expressions over the values at the start, arrays as named
    values, branches decided by the concrete values) -- what a piece of code leaves in `dt`, `t0`, `ab` for a given flag;
- * `Fn`: positions and definitions of a function's locals (`expand` replaces a once-defined local by its definition).
+ * `Fn`: positions and definitions of a function's locals (`expand` replaces a once-defined local by its definition);
+ * `handler_entry_states`: the states in which a `catch` handler can be entered (one per statement of the try block that may throw).
 """
 from __future__ import annotations
 
@@ -86,6 +89,46 @@ def expand_macros(text: str, defs: dict, depth=0) -> str:
             out.append(text[m.start():j])
         i = j
     return "".join(out)
+
+
+CONSTDEF = re.compile(r"^[ \t]*(?:(?:static|inline|extern)\s+)*(?:constexpr|const)\s+(?:(?:static|const|unsigned|signed|long|short)\s+)*\w+\s+(\w+)\s*(?:=\s*([^;{}]+)|\{([^;{}]*)\})\s*;", re.M)
+OBJDEF = re.compile(r"^[ \t]*#[ \t]*define[ \t]+(\w+)[ \t]+([^\n\\]+?)[ \t]*$", re.M)
+
+
+def const_defs(text: str, known=None) -> dict:
+    """named numeric constants a piece of C++ text (file / class scope) defines -- `static const int N = 5;`, `constexpr double B{10.0};`,
+    `#define N 5`, `#define M (N + 1)` -- as {name: number}.  A name defined twice with different values (conditional
+    compilation) or by anything that is not a number (or by such a name) is left out."""
+    text = re.sub(r"//[^\n]*", "", text)
+    defs = sorted(list(CONSTDEF.finditer(text)) + list(OBJDEF.finditer(text)), key=lambda x: x.start())
+    banned = set()
+    for _ in range(4):
+        vals = dict(known or {})
+        seen = {}
+        for m in defs:
+            name = m.group(1)
+            rhs = m.group(2) if m.group(2) is not None else (m.group(3) if m.re is CONSTDEF else None)
+            try:
+                v = value(tokenize(rhs), vals) if rhs and rhs.strip() and name not in banned else UNK
+            except CStmtError:
+                v = UNK
+            if isinstance(v, bool) or not isinstance(v, (int, float)) or (name in seen and seen[name] != v):
+                v = UNK
+            seen[name] = v
+            vals.pop(name, None)
+            if v is not UNK:
+                vals[name] = v
+        bad = {k for k, v in seen.items() if v is UNK}
+        if bad <= banned:
+            break
+        banned |= bad
+    return {k: v for k, v in seen.items() if v is not UNK}
+
+
+def const_tokens(v):
+    """a number as expression tokens"""
+    t = repr(v)
+    return [t] if v >= 0 else ["(", "-", t[1:], ")"]
 
 
 def tokenize(s: str):
@@ -679,9 +722,12 @@ class Fn:
                     self.defs.setdefault(nm, []).append((i, op, rhs, decl))
             if s[0] in ("if", "while"):
                 # `if (++n > m)`: n is incremented when the test is made (op '++cond', at the position of the test)
-                for j, t in enumerate(s[1][:-1]):
-                    if t in ("++", "--") and IDENT.match(s[1][j + 1]) and not (j and (IDENT.match(s[1][j - 1]) or s[1][j - 1] in (")", "]"))):
+                for j, t in enumerate(s[1]):
+                    if t in ("++", "--") and j + 1 < len(s[1]) and IDENT.match(s[1][j + 1]) and not (j and (IDENT.match(s[1][j - 1]) or s[1][j - 1] in (")", "]"))):
                         self.defs.setdefault(s[1][j + 1], []).append((i, t + "cond", None, False))
+                    elif t in ("++", "--") and j and IDENT.match(s[1][j - 1]) and not (j > 1 and s[1][j - 2] in (".", "->")):
+                        # `if (n++ >= m)`: incremented by the test as well (which compares the value before)
+                        self.defs.setdefault(s[1][j - 1], []).append((i, t + "cond", None, False))
 
     def written_between(self, names, p, q) -> bool:
         return any(p < i < q for nm in names for i, op, rhs, decl in self.defs.get(nm, ()))
@@ -754,8 +800,9 @@ def copies(st):
 
 # ------------------------------------------------------------------ helper functions defined in the same file
 
-def params_of(header: str):
-    """parameter names of `type name(type a, type *b, type c = 1)`"""
+def param_decls(header: str):
+    """parameters of `type name(type a, type *b, const T &c, type d = 1)`: [(name, kind, type tokens)] with kind
+    'value' (the callee works on a copy), 'ref' or 'ptr' (the callee works on the caller's object); None when not understood"""
     m = re.search(r"\(((?:[^()]|\([^()]*\))*)\)\s*(const)?\s*(:[^{};]*)?$", header.strip(), re.S)
     if not m:
         return None
@@ -766,48 +813,341 @@ def params_of(header: str):
     for piece in _top_split(tokenize(inner), (",",)):
         if "=" in piece:
             piece = piece[:piece.index("=")]
-        ids = [x for x in piece if IDENT.match(x)]
+        core = piece[:piece.index("[")] if "[" in piece else piece
+        ids = [j for j, x in enumerate(core) if IDENT.match(x)]
         if not ids:
             return None
-        out.append(ids[-1])
+        kind = "ref" if "&" in piece or "&&" in piece else "ptr" if "*" in piece or "[" in piece else "value"
+        out.append((core[ids[-1]], kind, core[:ids[-1]]))
     return out
 
 
-def inline_calls(st, helpers, depth=0):
-    """helpers: {name: (params, parsed body)} of void functions.  An expression statement that is exactly `name(args);` becomes
-    the helper's body with the parameters replaced by the arguments (extracted code is still this code)."""
+def params_of(header: str):
+    """parameter names of `type name(type a, type *b, type c = 1)`"""
+    d = param_decls(header)
+    return None if d is None else [x[0] for x in d]
+
+
+def sole_call(tokens):
+    """`Callee(args)` and nothing else -> (callee, [arg token lists]) else None"""
+    toks = list(tokens)
+    if len(toks) < 3 or not IDENT.match(toks[0]) or toks[1] != "(" or toks[-1] != ")":
+        return None
+    d = 0
+    for j, t in enumerate(toks[1:], 1):
+        d += t == "("
+        d -= t == ")"
+        if d == 0 and j < len(toks) - 1:
+            return None
+    return toks[0], ([a for a in _top_split(toks[2:-1], (",",))] if len(toks) > 3 else [])
+
+
+def declared_locals(body) -> set:
+    """names a function body declares (`T x = e;`, `T x;`, `T x[n];`, for-header declarations)"""
+    names = set()
+    for s, _ in walk(body):
+        parts = [s[1]] if s[0] == "expr" else [s[1]] if s[0] == "for" else []
+        for pt in parts:
+            for nm, op, rhs, decl in assignments(pt):
+                if decl and op == "=":
+                    names.add(nm)
+            core = pt[:pt.index("[")] if "[" in pt else pt
+            if len(core) >= 2 and all(IDENT.match(x) or x == "*" for x in core) and IDENT.match(core[-1]) and core[0] not in ("return", "delete", "goto", "new"):
+                names.add(core[-1])
+    return names
+
+
+def _idents(st) -> set:
+    out = set()
+    for s, _ in walk(st):
+        for pt in s[1:]:
+            if isinstance(pt, list) and (not pt or isinstance(pt[0], str)):
+                out.update(t for t in pt if IDENT.match(t))
+        if s[0] == "try":
+            for d, b in s[2]:
+                out.update(t for t in d if IDENT.match(t))
+    return out
+
+
+def inline_calls(st, helpers, depth=0, used=None):
+    """helpers: {name: (parameters, parsed body)} of functions defined in the same file, parameters either names or the
+    (name, kind, type) triples of `param_decls`.  A statement that is exactly `name(args);`, `x = name(args);` or
+    `T x = name(args);` becomes the helper's body (extracted code is still this code) under C++ parameter passing:
+      * a reference / pointer parameter IS the caller's object: the argument is written in its place;
+      * a by-value parameter the helper never writes is its argument; one it writes (assigns, hands out `&p`) is a fresh
+        local copy `T p__byval = arg;` -- what the helper does to it never reaches the caller's variable;
+      * the helper may `return e;` only as its last statement; the call's target then receives e.  When e is a local of the
+        helper (`int r = 0; ..; return r;`) that local is the target itself;
+      * other locals of the helper are renamed when the caller uses the same name.
+    A call nested in an expression (statement, condition, return value) is replaced too when the helper is pure (writes nothing
+    but its own locals, calls nothing but libm / stdio): `{ return e; }` by `(e)` in place, a longer body through a temporary
+    `auto name__ret = name(args);` placed before the statement.  Inlined statements are spliced into the enclosing block."""
+    if used is None:
+        used = _idents(st)
     k = st[0]
+    rec = lambda x: inline_calls(x, helpers, depth, used)
+
+    def toks_(t):
+        return _expr_inline(t, helpers)
+
+    def hoisted(tokens, rebuild):
+        """statement `rebuild(tokens)` with the calls of pure helpers inside `tokens` moved into temporaries before it"""
+        tokens, pre = _hoist(toks_(tokens), helpers, used)
+        out = rebuild(tokens)
+        if not pre:
+            return out
+        pre = [inline_calls(x, helpers, depth + 1, used) for x in pre]
+        return ("block", [y for x in pre for y in (x[1] if x[0] == "block" else [x])] + [out])
     if k == "block":
-        return ("block", [inline_calls(s, helpers, depth) for s in st[1]])
+        out = []
+        for s in st[1]:
+            r = rec(s)
+            if r is not s and s[0] != "block" and r[0] == "block":
+                out.extend(r[1])
+            else:
+                out.append(r)
+        return ("block", out)
     if k == "if":
-        return ("if", st[1], inline_calls(st[2], helpers, depth), None if st[3] is None else inline_calls(st[3], helpers, depth))
+        return hoisted(st[1], lambda c: ("if", c, rec(st[2]), None if st[3] is None else rec(st[3])))
     if k == "for":
-        return ("for", st[1], st[2], st[3], inline_calls(st[4], helpers, depth))
+        return ("for", toks_(st[1]), toks_(st[2]), toks_(st[3]), rec(st[4]))
     if k in ("while", "dowhile"):
-        return (k, st[1], inline_calls(st[2], helpers, depth))
+        return (k, toks_(st[1]), rec(st[2]))
     if k == "try":
-        return ("try", inline_calls(st[1], helpers, depth), [(d, inline_calls(b, helpers, depth)) for d, b in st[2]])
-    if k == "expr" and len(st[1]) >= 3 and st[1][0] in helpers and st[1][1] == "(" and st[1][-1] == ")" and depth < 4:
-        params, body = helpers[st[1][0]]
-        args = [a for a in _top_split(st[1][2:-1], (",",)) if a] if len(st[1]) > 3 else []
-        inner_depth = 0
-        closed_early = False
-        for j, t in enumerate(st[1][1:-1]):
-            inner_depth += t == "("
-            inner_depth -= t == ")"
-            if inner_depth == 0 and j < len(st[1]) - 3:
-                closed_early = True
-        if len(args) == len(params) and not closed_early and not any(s[0] == "return" for s, _ in walk(body)):
-            m = {p: (a if len(a) == 1 else ["("] + a + [")"]) for p, a in zip(params, args)}
-            return inline_calls(_subst_stmt(body, m), helpers, depth + 1)
+        return ("try", rec(st[1]), [(d, rec(b)) for d, b in st[2]])
+    if k in ("return", "throw") and depth < 4:
+        return hoisted(st[1], lambda c: (k, c))
+    if k == "expr" and len(st[1]) >= 3 and depth < 4:
+        toks = st[1]
+        target = None
+        call = sole_call(toks)
+        if call is None and "=" in toks:
+            i = toks.index("=")
+            if i and IDENT.match(toks[i - 1]):
+                call, target = sole_call(toks[i + 1:]), toks[:i]
+        if call and call[0] in helpers:
+            r = _inlined(call[0], call[1], target, helpers[call[0]], used)
+            if r is not None:
+                used |= _idents(r)
+                return inline_calls(r, helpers, depth + 1, used)
+        return hoisted(toks, lambda c: ("expr", c) if c != toks else st)
     return st
+
+
+def _hinfo(helper):
+    """(parameters, statements before the final return | None, returned expression | None, pure?) of a helper.  The
+    statements are None when the helper returns from the middle (guard clauses: `_unreturn` restructures it); the whole
+    result is None when it returns from inside a loop / try."""
+    params, body = helper[0], helper[1]
+    if body[0] != "block":
+        return None
+    params = [p if isinstance(p, tuple) else (p, "subst", []) for p in params]
+    stmts = list(body[1])
+    rets = [(s, c) for s, c in walk(body) if s[0] == "return"]
+    ret = None
+    if rets and not (len(rets) == 1 and stmts and stmts[-1] is rets[0][0]):
+        if any(g[0] not in ("if", "try", "catch") for s, c in rets for g in c):
+            return None
+        stmts = None
+    elif rets:
+        ret = list(rets[0][0][1])
+        stmts = stmts[:-1]
+    own = declared_locals(body) | {p for p, kind, typ in params if kind == "value"}
+    pure = written(body) <= own and not may_throw(body)
+    return params, stmts, ret, pure
+
+
+def _has_return(st) -> bool:
+    return any(s[0] == "return" for s, _ in walk(st))
+
+
+def _unreturn(stmts, assign, budget=None):
+    """statements of a helper that returns from the middle -> the same computation without `return`: `return e;` becomes
+    `assign(e)` and what followed it runs in the other arm of the `if` that guarded it:
+        if (c) { A; return x; }  B; return y;      ->      if (c) { A; r = x; } else { B; r = y; }"""
+    budget = budget if budget is not None else [200]
+    out = []
+    for i, s in enumerate(stmts):
+        rest = list(stmts[i + 1:])
+        budget[0] -= 1
+        if budget[0] < 0:
+            raise CStmtError("helper too branchy to restructure")
+        if s[0] == "return":
+            return out + assign(list(s[1]))
+        if not _has_return(s):
+            out.append(s)
+            continue
+        if s[0] == "block":
+            return out + _unreturn(list(s[1]) + rest, assign, budget)
+        if s[0] == "if":
+            th = list(s[2][1]) if s[2][0] == "block" else [s[2]]
+            el = [] if s[3] is None else list(s[3][1]) if s[3][0] == "block" else [s[3]]
+
+            def ends(b):
+                return bool(b) and (b[-1][0] == "return" or (b[-1][0] == "if" and b[-1][3] is not None and ends([b[-1][2]] if b[-1][2][0] != "block" else b[-1][2][1])
+                                                             and ends([b[-1][3]] if b[-1][3][0] != "block" else b[-1][3][1])))
+            a = _unreturn(th + ([] if ends(th) else rest), assign, budget)
+            b = _unreturn(el + ([] if ends(el) else rest), assign, budget)
+            return out + [("if", s[1], ("block", a), ("block", b) if b else None)]
+        if s[0] == "try" and (not rest or (len(rest) == 1 and rest[0][0] == "return")):
+            # `try { ..; return a; } catch (..) { ..; return b; } return c;`: every arm ends by assigning the result -- its own,
+            # or (falling out of the try statement) the one that follows, which cannot throw
+            def arm(b):
+                return ("block", _unreturn((list(b[1]) if b[0] == "block" else [b]) + rest, assign, budget))
+            return out + [("try", arm(s[1]), [(d, arm(b)) for d, b in s[2]])]
+        raise CStmtError("return inside a loop")
+    return out
+
+
+def _calls_in(tokens, helpers):
+    """(i, j, name, args) of the calls `name(args)` = tokens[i:j] of helpers inside an expression"""
+    for i, t in enumerate(tokens):
+        if t in helpers and i + 1 < len(tokens) and tokens[i + 1] == "(" and not (i and tokens[i - 1] in (".", "->", "::")):
+            d = 0
+            for j in range(i + 1, len(tokens)):
+                d += tokens[j] == "("
+                d -= tokens[j] == ")"
+                if d == 0:
+                    inner = tokens[i + 2:j]
+                    yield i, j + 1, t, ([a for a in _top_split(inner, (",",))] if inner else [])
+                    break
+
+
+def _expr_inline(tokens, helpers, depth=0):
+    """`name(args)` of a pure helper `{ return e; }` -> `(e)` with the parameters replaced by the (parenthesised) arguments"""
+    tokens = list(tokens)
+    if depth > 4:
+        return tokens
+    for i, j, name, args in _calls_in(tokens, helpers):
+        h = _hinfo(helpers[name])
+        if h and h[1] == [] and h[2] and h[3] and len(args) == len(h[0]) and all(args):
+            m = {p[0]: (list(a) if len(a) == 1 else ["("] + list(a) + [")"]) for p, a in zip(h[0], args)}
+            return _expr_inline(tokens[:i] + ["("] + _subst_tokens(h[2], m) + [")"] + tokens[j:], helpers, depth + 1)
+    return tokens
+
+
+def _first_evaluated(tokens, i) -> bool:
+    """is the call starting at tokens[i] evaluated first and unconditionally in the expression?  (leftmost operand, possibly
+    after `x =` / `T x =`, an opening parenthesis or a unary operator)"""
+    before = list(tokens[:i])
+    if "=" in before:
+        j = before.index("=")
+        if not j or not all(IDENT.match(x) or x == "*" for x in before[:j]):
+            return False
+        before = before[j + 1:]
+    return all(x in ("(", "!", "-", "+") for x in before)
+
+
+def _hoist(tokens, helpers, used, lazy_ok=True):
+    """calls of helpers nested inside an expression -> (tokens with temporaries, [`auto tmp = call;`]): a pure helper anywhere
+    (evaluating it early, or although a `&&` would have skipped it, changes nothing), any other helper only where it is
+    evaluated first and unconditionally"""
+    tokens = list(tokens)
+    pre = []
+    for _ in range(4):
+        for i, j, name, args in _calls_in(tokens, helpers):
+            h = _hinfo(helpers[name])
+            if h and h[1] != [] and (h[2] or h[1] is None) and (h[3] or (not pre and _first_evaluated(tokens, i))) \
+                    and len(args) == len(h[0]) and all(args) and not (i == 0 and j == len(tokens)):
+                tmp, n = f"{name}__ret", 1
+                while tmp in used:
+                    n += 1
+                    tmp = f"{name}__ret{n}"
+                used.add(tmp)
+                pre.append(("expr", ["auto", tmp, "="] + tokens[i:j]))
+                tokens = tokens[:i] + [tmp] + tokens[j:]
+                break
+        else:
+            break
+    return tokens, pre
+
+
+DROPPED = "__dropped"         # suffix of the name that receives the result of an inlined helper whose caller ignores it
+
+
+def _inlined(callee, args, target, helper, used):
+    h = _hinfo(helper)
+    if h is None or len(args) != len(h[0]) or any(not a for a in args):
+        return None                         # (returns from inside a loop: not modelled)
+    params, stmts, ret, _ = h
+    body = helper[1]
+    multi = stmts is None
+    if target is not None and not ret and not multi:
+        return None
+    core = body if multi else ("block", stmts)
+    W = written(core)
+    argids = {t for a in args for t in a if IDENT.match(t)}
+    taken = used | argids | _idents(body) | {p[0] for p in params}
+    m = {}
+    prelude = []
+
+    def fresh(base):
+        nm, n = base, 1
+        while nm in taken:
+            n += 1
+            nm = f"{base}{n}"
+        taken.add(nm)
+        return nm
+    for (p, kind, typ), a in zip(params, args):
+        if kind == "value" and p in W:
+            cp = fresh(p + "__byval")
+            prelude.append(("expr", list(typ) + [cp, "="] + list(a)))
+            m[p] = [cp]
+        else:
+            m[p] = list(a) if len(a) == 1 else ["("] + list(a) + [")"]
+    locs = declared_locals(core) - set(m)
+    simple = target is not None and not any(x in (".", "->", "[", "::", "*") for x in target)
+    elided = None
+    if ret and len(ret) == 1 and ret[0] in locs and simple:
+        v, L = target[-1], ret[0]
+        if v not in argids and (v == L or v not in _idents(core)):
+            elided = L
+            m[L] = [v]
+    for L in sorted(locs):
+        if L != elided and L in (used | argids):
+            m[L] = [fresh(f"{L}__{callee}")]
+    if multi:
+        # guard-clause returns: every `return e;` assigns the target, the rest of the helper is the other arm
+        if target is not None and len(target) > 1:
+            prelude.append(("expr", list(target)))
+        tgt = [fresh(callee + DROPPED)] if target is None else [target[-1]] if simple else list(target)
+
+        def assign(e):
+            return [("expr", tgt + ["="] + e)] if e else []
+        try:
+            return ("block", prelude + _unreturn(_subst_stmt(body, m)[1], assign))
+        except CStmtError:
+            return None
+    new = [_subst_stmt(s, m) for s in stmts]
+    if elided is not None:
+        v = target[-1]
+        # the declaration of the result local is the (first) assignment of the target
+        for j, s in enumerate(new):
+            if s[0] == "expr" and v in s[1] and (s[1][-1] == v or "=" in s[1] and s[1][s[1].index("=") - 1] == v):
+                i = s[1].index(v)
+                if i and all(IDENT.match(x) or x == "*" for x in s[1][:i]):
+                    new[j] = ("expr", (list(target[:-1]) if len(target) > 1 else []) + s[1][i:])
+                break
+    elif ret is not None:
+        r = _subst_tokens(ret, m)
+        # (a result the caller ignores is kept under a name of its own: a dropped status can be seen)
+        new.append(("expr", (list(target) if target is not None else ["auto", fresh(callee + DROPPED)]) + ["="] + r))
+    return ("block", prelude + new)
 
 
 def _subst_tokens(tokens, m):
     out = []
     for j, t in enumerate(tokens):
         if t in m and not (j and tokens[j - 1] in (".", "->", "::")):
-            out += m[t]
+            r = m[t]
+            if len(r) == 4 and r[0] == "(" and r[1] == "&" and r[3] == ")":
+                # a pointer parameter bound to `&x`: `*p` is x, `p` as a whole call argument is `&x`
+                if out and out[-1] == "*" and (len(out) == 1 or not (IDENT.match(out[-2]) or out[-2] in (")", "]") or out[-2][0].isdigit())):
+                    out[-1:] = [r[2]]
+                    continue
+                if out and out[-1] in ("(", ",") and j + 1 < len(tokens) and tokens[j + 1] in (")", ","):
+                    r = r[1:3]
+            out += r
         else:
             out.append(t)
     return out
@@ -827,7 +1167,7 @@ def _subst_stmt(st, m):
         return ("try", _subst_stmt(st[1], m), [(d, _subst_stmt(b, m)) for d, b in st[2]])
     if k in ("expr", "return", "throw"):
         return (k, _subst_tokens(st[1], m))
-    return st
+    return tuple(list(st))                   # (a statement of its own: positions are kept per object)
 
 
 # ------------------------------------------------------------------ straight-line symbolic execution
@@ -844,18 +1184,19 @@ class Sym:
     """State: scalars {name: C expression over the symbols of the initial state}, arrays {name: name of the array value held},
     concrete {name: number} for the variables branches are decided on.  `run` executes statements in order; an `if` whose
     condition is decided by the concrete values takes that branch; an undecided `if` is followed on both sides (a side that
-    leaves the function / loop is recorded in `side_exits` and dropped; two sides that fall through must agree)."""
+    leaves the function / loop is recorded in `side_exits` and dropped; what two sides that fall through leave differently becomes an unknown value)."""
 
-    def __init__(self, scalars=None, arrays=None, concrete=None, stop=None):
+    def __init__(self, scalars=None, arrays=None, concrete=None, stop=None, skip=None):
         self.s = dict(scalars or {})
         self.a = dict(arrays or {})
         self.c = dict(concrete or {})
         self.stop = stop or (lambda st: False)
+        self.skip = skip or (lambda st, sym: False)  # skip(st, state): statements stepped over (a loop the caller takes as run to its end)
         self.side_exits = []
         self._fresh = 0
 
     def clone(self):
-        o = Sym(self.s, self.a, self.c, self.stop)
+        o = Sym(self.s, self.a, self.c, self.stop, self.skip)
         o.side_exits = self.side_exits
         o._fresh = self._fresh
         return o
@@ -929,6 +1270,8 @@ class Sym:
             if k not in env and re.fullmatch(r"\(*-?\d+(\.\d*)?\)*", v.replace(" ", "")):
                 w = v.replace(" ", "").strip("()")
                 env[k] = int(w) if re.fullmatch(r"-?\d+", w) else float(w)
+            elif k not in env and v.replace(" ", "").strip("()") in ("true", "false"):
+                env[k] = v.replace(" ", "").strip("()") == "true"
         return env
 
     def _assign(self, nm, op, rhs, decl):
@@ -963,6 +1306,8 @@ class Sym:
         k = st[0]
         if self.stop(st):
             return ("stop", st)
+        if self.skip(st, self):
+            return None
         if k == "block":
             for s in st[1]:
                 r = self.run(s)
@@ -1008,9 +1353,15 @@ class Sym:
                 self.side_exits.append((st, rb))
                 self.s, self.a, self.c, self._fresh = a.s, a.a, a.c, max(a._fresh, b._fresh)
                 return None
+            self._fresh = max(a._fresh, b._fresh)
             if a.state() != b.state():
-                raise Unknown(f"the state after `if ({txt(st[1])})` depends on a condition that is not decided")
-            self.s, self.a, self.c, self._fresh = a.s, a.a, a.c, max(a._fresh, b._fresh)
+                # join: what the two sides leave differently is a value nobody knows (it compares equal to nothing)
+                for mine, x, y in ((self.s, a.s, b.s), (self.a, a.a, b.a)):
+                    for k in set(x) | set(y):
+                        mine[k] = x[k] if k in x and k in y and x[k] == y[k] else self.opaque(k)
+                self.c = {k: v for k, v in a.c.items() if k in b.c and b.c[k] == v and type(b.c[k]) is type(v)}
+                return None
+            self.s, self.a, self.c = a.s, a.a, a.c
             return None
         if k == "for":
             cp = copies(st)
@@ -1032,6 +1383,52 @@ class Sym:
         if k in ("throw", "break", "continue"):
             return (k,)
         raise Unknown(f"statement kind {k}")
+
+
+NO_THROW_CALLS = NO_EFFECT_CALLS | {"sizeof", "static_cast", "reinterpret_cast", "const_cast", "log10", "log", "pow", "exp", "sqrt", "fabs", "abs", "min", "max", "fmin", "fmax"}
+
+
+def may_throw(st) -> bool:
+    """can executing `st` raise a C++ exception?  A `throw`, a `new`, or any call other than stdio / libm ones; assignments,
+    arithmetic and indexing of scalars cannot."""
+    for s, _ in walk(st):
+        if s[0] == "throw":
+            return True
+        for pt in ([s[1]] if s[0] in ("expr", "return", "if", "while", "dowhile") else [s[1], s[2], s[3]] if s[0] == "for" else []):
+            for j, t in enumerate(pt):
+                if t in ("new", "throw") or (IDENT.match(t) and j + 1 < len(pt) and pt[j + 1] == "(" and t not in NO_THROW_CALLS and t not in CAST_TYPES
+                                             and t not in ("if", "while", "for", "switch", "return")):
+                    return True
+    return False
+
+
+def handler_entry_states(sym, block):
+    """The states in which a handler of `try block` can be entered, `sym` being the state before the `try`: one per statement
+    of the block that may throw -- everything before it has run, the statement itself has not completed (the result of the
+    throwing call is not assigned; what it was handed by address, and what a compound statement writes, is unknown).
+    Statements after the last one that may throw never precede the handler (`try { run(); ok = true; } catch ..`).
+    -> [Sym]; raises Unknown when the block is not straight-line enough to be followed."""
+    states = []
+    cur = sym.clone()
+    cur.side_exits = []
+    for s in (block[1] if block[0] == "block" else [block]):
+        if may_throw(s):
+            e = cur.clone()
+            unknown = set()
+            if s[0] == "expr":
+                unknown = {nm for nm, op, rhs, decl in assignments(s[1]) if op == "&"} | {t for t in s[1] if t in e.a}
+            else:
+                unknown = written(s)
+            for nm in unknown:
+                if nm in e.a:
+                    e.a[nm] = e.opaque(nm)
+                else:
+                    e.s[nm] = e.opaque(nm)
+                    e.c.pop(nm, None)
+            states.append(e)
+        if cur.run(s) is not None:
+            break
+    return states
 
 
 def same_value(a: str, b: str):
